@@ -79,8 +79,14 @@ class GroundTruthOracle:
         # declaration must be the very first thing): leading blanks of the
         # queried prefix are skipped.  (Found by a seeded change whose symbolic
         # counterexample did not reproduce on real expat.)
+        # ... and an XML declaration (abstractly "<?x?>") is allowed as the very
+        # first thing of a document: declaration + blanks + element is the
+        # element's document (second seeded change whose counterexample did not
+        # reproduce on real expat).
         k = 0
         n = len(text)
+        if n >= 5 and text[0] == "<" and text[1] == "?" and text[2] == "x" and text[3] == "?" and text[4] == ">":
+            k = 5
         while k < n and (text[k] == "\n" or text[k] == " " or text[k] == "\t" or text[k] == "\r"):
             k += 1
         if k:
@@ -303,6 +309,8 @@ def validate_xml_facts():
             bad.append(("blanks around the root rejected", m))
         if wf('\n<?xml version="1.0"?>\n' + m):
             bad.append(("declaration after a blank accepted", m))
+        if not wf('<?xml version="1.0"?>' + chr(10) + m):
+            bad.append(("declaration + element rejected", m))
         if m.endswith(">>"):
             bad.append(("F4 ends in >>", m))
     for L in (1, 2, 3):
